@@ -87,16 +87,20 @@ MUTABLE_ATTRS: set | None = None  # attribute names stored to outside constructo
 
 def position_dependent(v) -> bool:
     """does evaluating v read state that an intervening effect could have changed?"""
-    for n in ast.walk(v):
+    stack = [v]
+    while stack:
+        n = stack.pop()
         if isinstance(n, ast.Call):
             f = n.func
-            if isinstance(f, ast.Name) and (f.id in PURE_CALLS or (f.id.startswith("@") and f.id != "@stale")):
-                continue
+            if isinstance(f, ast.Name) and f.id == "@stale":
+                continue  # already marked: what remains around it is evaluated from values, not from state
+            if not (isinstance(f, ast.Name) and (f.id in PURE_CALLS or f.id.startswith("@"))):
+                return True
+        elif isinstance(n, ast.Subscript):
             return True
-        if isinstance(n, ast.Subscript):
+        elif isinstance(n, ast.Attribute) and (MUTABLE_ATTRS is None or n.attr in MUTABLE_ATTRS):
             return True
-        if isinstance(n, ast.Attribute) and (MUTABLE_ATTRS is None or n.attr in MUTABLE_ATTRS):
-            return True
+        stack.extend(ast.iter_child_nodes(n))
     return False
 
 
@@ -380,12 +384,13 @@ class Summariser:
             if isinstance(test, ast.NamedExpr) and isinstance(test.target, ast.Name):
                 val = self.subst(test.value, env)
                 env2 = dict(env)
-                env2[test.target.id] = val
-                return self.branch(val, (env2, trace), True)
+                self.bind(test.target, val, env2)
+                return self.branch(env2[test.target.id], (env2, trace), True)
             if isinstance(test, ast.Compare) and len(test.ops) == 1 and isinstance(test.left, ast.NamedExpr) and isinstance(test.left.target, ast.Name):
                 val = self.subst(test.left.value, env)
                 env2 = dict(env)
-                env2[test.left.target.id] = val
+                self.bind(test.left.target, val, env2)
+                val = env2[test.left.target.id]
                 new = ast.Compare(left=val, ops=test.ops, comparators=[self.subst(c, env2) for c in test.comparators])
                 return self.branch(new, (env2, trace), True)
             e = self.subst(test, env)
@@ -480,8 +485,6 @@ class Summariser:
             bt = dict(env.get("__bt") or {})
             bt[target.id] = -1  # fixed to the clock at the end of the statement (see block)
             env["__bt"] = bt
-            if value is not None and not _readonly(value):
-                env["__ib"] = env.get("__ib", 0) + 1  # evaluating a call that may change state is a tick
         elif isinstance(target, (ast.Tuple, ast.List)):
             if isinstance(value, (ast.Tuple, ast.List)) and len(value.elts) == len(target.elts) and not any(isinstance(x, ast.Starred) for x in [*target.elts, *value.elts]):
                 for t, v in zip(target.elts, value.elts):
@@ -549,8 +552,11 @@ class Summariser:
             else:
                 targets = s.targets
             out = []
+            impure = not _readonly(s.value)  # judged on the expression as written: substituted text is not re-evaluated
             for (env2, tr2), v in self.values(s.value, st):
                 env3 = dict(env2)
+                if impure:
+                    env3["__ib"] = env3.get("__ib", 0) + 1  # evaluating a call that may change state is a tick
                 tr3 = tr2
                 for t in targets:
                     if isinstance(t, (ast.Name, ast.Tuple, ast.List)):
